@@ -1083,6 +1083,8 @@ pub fn run(cfg: &Cfg, out: &mut Out) {
     // stream C: configuration — builder validation against the model for every transport, and whole exporters
     // built through the public builder, observed on real unix-stream / unix-datagram / UDP sockets
     run_config_stream(cfg, out);
+    // stream D: the forwarder's client state machine on real sockets with an adversarial receiver
+    run_forwarder_stream(cfg, out);
     std::panic::set_hook(prev);
 }
 
@@ -1129,13 +1131,17 @@ fn run_state_case(out: &mut Out, r: &mut Rng) {
     use std::collections::{BTreeMap, BTreeSet};
     static META: Metadata<'static> = Metadata::new("c09", Level::INFO, None);
     type Id = (String, String); // (metric name, value of its label `k`)
-    let max = *r.pick(&[24usize, 40, 64, 100, 200, 1432, 8192]);
+    // one case in four is a "block skew" case: a tight limit, sampling off, and histograms recorded block by block
+    // (an unsampled histogram is flushed in blocks of 64 values, newest block first) where whole blocks consist of
+    // values whose text cannot fit into any payload while other blocks of the same metric hold values that do
+    let skew = r.chance(1, 4);
+    let max = if skew { *r.pick(&[24usize, 32, 40, 64]) } else { *r.pick(&[24usize, 40, 64, 100, 200, 1432, 8192]) };
     let lp = r.chance(1, 2);
     let prefix = if r.chance(1, 2) { Some(r.pick_str(&["myservice", "p", "svc.eu", "é"]).to_string()) } else { None };
     let globals: Vec<(String, String)> = (0..r.below(3)).map(|i| (format!("g{}", i), r.pick_str(&["", "x", "eu-west-1"]).to_string())).collect();
     let as_dist = r.chance(1, 2);
     let aggressive = r.chance(1, 2);
-    let sampling = r.chance(1, 3);
+    let sampling = r.chance(1, 3) && !skew;
     let reservoir = *r.pick(&[4usize, 16, 64]);
     let mut driver = StateDriver::new(
         aggressive,
@@ -1183,6 +1189,26 @@ fn run_state_case(out: &mut Out, r: &mut Rng) {
                         g.set(v);
                         reg_gauges.insert(id.clone(), v.to_bits());
                         *g_sets.entry(id.clone()).or_insert(0) += 1;
+                    }
+                }
+                _ if skew => {
+                    let h = recorder.register_histogram(&key, &META);
+                    let own = vec![("k".to_string(), kval.to_string())];
+                    let min_len = wire_name(&prefix, name).len() + tag_section(&globals, &own).len() + 1 + 2;
+                    let avail = max as isize - min_len as isize - 1; // longest value text that still fits
+                    const TEXTS: [f64; 6] = [7.0, 1.5, 0.123456789, 1.2345678901234567e-100, -1.2345678901234567e-100, -1.2345678901234567e-300];
+                    let short: Vec<f64> = TEXTS.iter().copied().filter(|v| ryu_text(*v).len() as isize <= avail).collect();
+                    let long: Vec<f64> = TEXTS.iter().copied().filter(|v| ryu_text(*v).len() as isize > avail).collect();
+                    let blocks = r.range(2, 4);
+                    for b in 0..blocks {
+                        let use_long = (r.chance(1, 2) && !long.is_empty()) || short.is_empty();
+                        let n = if b + 1 == blocks && r.chance(1, 2) { r.range(1, 64) } else { 64 };
+                        for _ in 0..n {
+                            let v = if use_long { *r.pick(&long[..]) } else { *r.pick(&short[..]) };
+                            h.record(v);
+                            h_rec.entry(id.clone()).or_default().push(v.to_bits());
+                        }
+                        out.count(if use_long { "state.skew_block=unsendable" } else { "state.skew_block=sendable" });
                     }
                 }
                 _ => {
@@ -1752,4 +1778,494 @@ fn run_e2e_case(out: &mut Out, r: &mut Rng, transport: &str, idx: usize) {
         &format!("ok max={} lp={}", observed_max, lp_observed as u8),
     );
     out.nontrivial();
+}
+
+// ---------------------------------------------------------------------------------------------
+// stream D: the forwarder's client state machine (forwarder/sync.rs `ClientState::try_send`) on real sockets with
+// an adversarial receiver.  Single-threaded and therefore deterministic: the receiver only ever reads BETWEEN two
+// sends, so whether a send fits into the socket buffer (Ok) or runs into the write timeout in the middle of a frame
+// (Err after a partial `write_all`) is decided by the kernel's buffer state alone, never by timing.  Every
+// `try_send` goes to the Lean model (`sfwd send`) together with what the environment did (connect result, bytes
+// accepted); result, client state and number of connections are compared per op, the bytes of every connection at
+// the end of the case (`sfwd wire`).
+//
+// Implementation-side oracles (independent of the model): each connection's byte stream must de-frame into whole
+// length-prefixed frames followed by at most one truncated frame; every whole frame is a payload that was sent, in
+// send order; the whole frames of all connections together are exactly the payloads whose send returned Ok (each
+// once); a truncated rest is a proper prefix of a payload whose send failed; frame bodies are DogStatsD datagrams.
+
+#[derive(Clone, Debug)]
+enum FOp {
+    /// `try_send` of pool payload `i`
+    Send(usize),
+    /// the receiver reads everything that is queued on every connection
+    Read,
+    /// from now on the receiver reads after every send / stops doing so
+    Auto(bool),
+    /// the receiver closes its end of the newest connection (after reading what is queued: `true`)
+    CloseLive(bool),
+    /// the receiving endpoint goes away (listener / datagram socket closed, path removed) / comes back
+    Down,
+    Up,
+}
+
+fn fnv1a(bs: &[u8]) -> u64 {
+    let mut h: u64 = 2166136261;
+    for b in bs {
+        h = ((h ^ (*b as u64)) * 16777619) % 4294967296;
+    }
+    h
+}
+
+/// the Agent's stream reader: complete frame bodies and the unconsumed rest
+fn deframe_stream(bs: &[u8]) -> (Vec<&[u8]>, &[u8]) {
+    let mut frames = vec![];
+    let mut at = 0usize;
+    loop {
+        if bs.len() - at < 4 {
+            break;
+        }
+        let n = u32::from_le_bytes([bs[at], bs[at + 1], bs[at + 2], bs[at + 3]]) as usize;
+        if bs.len() - at - 4 < n {
+            break;
+        }
+        frames.push(&bs[at + 4..at + 4 + n]);
+        at += 4 + n;
+    }
+    (frames, &bs[at..])
+}
+
+/// payloads exactly as the real writer hands them to the socket (length prefix included in stream mode)
+fn fwd_pool(r: &mut Rng, lp: bool, big: bool) -> (usize, Vec<Vec<u8>>) {
+    let max = if big { 1usize << 20 } else { *r.pick(&[200usize, 8192, 65536, 65536]) };
+    let mut w = Writer::new(max, lp);
+    let prefix = if r.chance(1, 2) { Some("svc") } else { None };
+    let globals = if r.chance(1, 2) { vec![Label::new("env", "prod")] } else { vec![] };
+    w.write_counter(&Key::from_name("reqs"), r.below(100_000) as u64, None, prefix, &globals);
+    w.write_gauge(&Key::from_parts("depth", vec![Label::new("k", "a")]), 2.5, Some(1_700_000_000), prefix, &globals);
+    let n = (max / 4).min(40_000);
+    let vals: Vec<f64> = (0..n).map(|_| (r.below(100_000) as f64) / 8.0).collect();
+    w.write_distribution(&Key::from_parts("lat", vec![Label::new("k", "a")]), &vals, None, prefix, &globals);
+    if big {
+        let blob = "x".repeat(r.range(300_000, 600_000));
+        w.write_counter(&Key::from_parts("big", vec![Label::new("blob", blob)]), 1, None, prefix, &globals);
+    }
+    let mut pool = w.drain();
+    // keep the pool small: the two scalars, the largest and one more histogram payload, the blob
+    if pool.len() > 6 {
+        let last = pool.pop().unwrap();
+        pool.truncate(5);
+        pool.push(last);
+    }
+    (max, pool)
+}
+
+fn fwd_script(r: &mut Rng, pool: &[Vec<u8>], thorough: bool) -> Vec<FOp> {
+    let mut s = vec![];
+    let largest = (0..pool.len()).max_by_key(|i| pool[*i].len()).unwrap_or(0);
+    if r.chance(1, 2) {
+        s.push(FOp::Auto(true));
+    }
+    let n = r.range(8, if thorough { 60 } else { 40 });
+    for _ in 0..n {
+        match r.weighted(&[10, 8, 2, 1, 1, 1, 1, 1]) {
+            0 => s.push(FOp::Send(r.below(pool.len()))),
+            1 => s.push(FOp::Send(largest)), // fills the socket buffer of a stalled receiver
+            2 => s.push(FOp::Read),
+            3 => s.push(FOp::Auto(r.chance(1, 2))),
+            4 => s.push(FOp::CloseLive(r.chance(1, 2))),
+            5 => s.push(FOp::Down),
+            6 => s.push(FOp::Up),
+            _ => {
+                // a stall long enough to tear a frame, then the receiver catches up and traffic continues
+                s.push(FOp::Auto(false));
+                for _ in 0..r.range(1, 30) {
+                    s.push(FOp::Send(largest));
+                }
+                s.push(FOp::Read);
+                for _ in 0..r.range(1, 4) {
+                    s.push(FOp::Send(r.below(pool.len())));
+                }
+            }
+        }
+    }
+    s
+}
+
+struct RxConn {
+    sock: Option<std::os::unix::net::UnixStream>,
+    data: Vec<u8>,
+    eof: bool,
+}
+
+impl RxConn {
+    /// read what is queued (non-blocking)
+    fn pump(&mut self) {
+        use std::io::Read;
+        let mut chunk = vec![0u8; 1 << 16];
+        while let Some(s) = self.sock.as_mut() {
+            match s.read(&mut chunk) {
+                Ok(0) => {
+                    self.eof = true;
+                    self.sock = None;
+                }
+                Ok(k) => self.data.extend_from_slice(&chunk[..k]),
+                Err(e) if e.kind() == std::io::ErrorKind::Interrupted => {}
+                Err(e) if e.kind() == std::io::ErrorKind::WouldBlock => break,
+                Err(_) => {
+                    // ECONNRESET and the like: nothing more will come
+                    self.eof = true;
+                    self.sock = None;
+                }
+            }
+        }
+    }
+}
+
+fn run_fwd_case(out: &mut Out, stream: bool, max: usize, pool: &[Vec<u8>], script: &[FOp], idx: usize) {
+    use metrics_exporter_dogstatsd::verif::ForwarderClient;
+    use std::os::unix::net::{UnixDatagram, UnixListener};
+    use std::time::Duration;
+    let dir = std::env::temp_dir().join(format!("mv-c09f-{}-{}", std::process::id(), idx));
+    let _ = std::fs::remove_dir_all(&dir);
+    std::fs::create_dir_all(&dir).unwrap();
+    let path = dir.join("s.sock");
+    let addr = format!("{}://{}", if stream { "unix" } else { "unixgram" }, path.to_str().unwrap());
+    // the write timeout only bounds how long a send into a full buffer takes; no outcome depends on its value
+    let timeout = Duration::from_millis(20);
+    let mut client = ForwarderClient::new(&addr, max, timeout).expect("address parses");
+    let ctx = format!(
+        "forwarder client {} max={} write_timeout={:?} payload lengths={:?} script={:?}",
+        addr,
+        max,
+        timeout,
+        pool.iter().map(|p| p.len()).collect::<Vec<_>>(),
+        script
+    );
+    if client.is_length_prefixed() != stream {
+        out.oracle_fail("length-prefixed stream is mis-framed", &format!("{} :: is_length_prefixed() = {} for this transport", ctx, client.is_length_prefixed()));
+    }
+    out.op(&format!("sfwd new {}", stream as u8), "ok");
+    for (i, p) in pool.iter().enumerate() {
+        out.op(&format!("sfwd def {} {}", i, hex(p)), &format!("ok len={}", p.len()));
+    }
+    let mut listener: Option<UnixListener> = None;
+    let mut dsock: Option<UnixDatagram> = None;
+    let up = |listener: &mut Option<UnixListener>, dsock: &mut Option<UnixDatagram>| {
+        let _ = std::fs::remove_file(&path);
+        if stream {
+            let l = UnixListener::bind(&path).unwrap();
+            l.set_nonblocking(true).unwrap();
+            *listener = Some(l);
+        } else {
+            let d = UnixDatagram::bind(&path).unwrap();
+            d.set_nonblocking(true).unwrap();
+            *dsock = Some(d);
+        }
+    };
+    up(&mut listener, &mut dsock);
+    let mut conns: Vec<RxConn> = vec![];
+    let mut acct: Vec<usize> = vec![]; // bytes of each connection already attributed to a send
+    let mut dgrams: Vec<Vec<u8>> = vec![];
+    let mut auto = false;
+    // the sends made, in order: (pool index, returned Ok)
+    let mut sends: Vec<(usize, bool)> = vec![];
+    let mut torn: Vec<Vec<u8>> = vec![]; // payloads whose send failed
+    let (mut n_torn, mut n_timeouts, mut n_other_err, mut n_connfail) = (0u64, 0u64, 0u64, 0u64);
+    let read_all = |conns: &mut Vec<RxConn>, dsock: &Option<UnixDatagram>, dgrams: &mut Vec<Vec<u8>>| {
+        for c in conns.iter_mut() {
+            c.pump();
+        }
+        if let Some(d) = dsock {
+            let mut chunk = vec![0u8; 1 << 17];
+            while let Ok(k) = d.recv(&mut chunk) {
+                dgrams.push(chunk[..k].to_vec());
+            }
+        }
+    };
+    for op in script {
+        match op {
+            FOp::Read => read_all(&mut conns, &dsock, &mut dgrams),
+            FOp::Auto(b) => auto = *b,
+            FOp::CloseLive(read_first) => {
+                if let Some(c) = conns.last_mut() {
+                    // always read what is queued first: a receiver that closes with unread data throws away payloads
+                    // that were reported as sent, which no sender can prevent (`read_first` only varies the script)
+                    let _ = read_first;
+                    c.pump();
+                    c.sock = None; // closes the receiver's end
+                    out.count("fwd.receiver_closed");
+                }
+            }
+            FOp::Down => {
+                // a datagram socket that goes away takes its queue with it: read first, so that "Ok" still means "received"
+                read_all(&mut conns, &dsock, &mut dgrams);
+                listener = None;
+                dsock = None;
+                let _ = std::fs::remove_file(&path);
+            }
+            FOp::Up => {
+                if listener.is_none() && dsock.is_none() {
+                    up(&mut listener, &mut dsock);
+                }
+            }
+            FOp::Send(i) => {
+                let p = &pool[*i];
+                let was_ready = client.is_ready();
+                let before = conns.len();
+                let res = client.try_send(p);
+                if let Some(l) = &listener {
+                    while let Ok((c, _)) = l.accept() {
+                        c.set_nonblocking(true).unwrap();
+                        conns.push(RxConn { sock: Some(c), data: vec![], eof: false });
+                        acct.push(0);
+                    }
+                }
+                let connected_now = if stream { conns.len() > before } else { !was_ready && dsock.is_some() };
+                if stream && conns.len() > before + 1 {
+                    out.oracle_fail("forwarder opened more than one connection for one payload", &ctx);
+                }
+                let had_socket = was_ready || connected_now;
+                // what the environment did, as observed
+                let env_c = if was_ready { "c0" } else if connected_now { "c1" } else { "c0" };
+                let env_w = match &res {
+                    Ok(_) => "full".to_string(),
+                    Err(e) => {
+                        let timed_out = matches!(e.kind(), std::io::ErrorKind::WouldBlock | std::io::ErrorKind::TimedOut);
+                        if !had_socket {
+                            n_connfail += 1;
+                            "full".to_string() // no write was attempted; the model must not look at this
+                        } else {
+                            if timed_out {
+                                n_timeouts += 1;
+                            } else {
+                                n_other_err += 1;
+                            }
+                            if stream {
+                                // how much of the payload made it into the stream: everything on that connection
+                                // beyond what earlier sends put there
+                                let c = conns.len() - 1;
+                                conns[c].pump();
+                                let k = conns[c].data.len().saturating_sub(acct[c]);
+                                if k > 0 {
+                                    n_torn += 1;
+                                }
+                                format!("f{}", k)
+                            } else {
+                                "f0".to_string()
+                            }
+                        }
+                    }
+                };
+                if stream && had_socket {
+                    let c = conns.len() - 1;
+                    acct[c] += match &res {
+                        Ok(_) => p.len(),
+                        Err(_) => env_w[1..].parse::<usize>().unwrap_or(0),
+                    };
+                }
+                sends.push((*i, res.is_ok()));
+                if res.is_err() {
+                    torn.push(p.clone());
+                }
+                let state = if client.is_ready() { "ready" } else { "disc" };
+                let tail = if stream { format!(" conns={}", conns.len()) } else { String::new() };
+                let answer = match &res {
+                    Ok(n) => format!("ok {} {}{}", n, state, tail),
+                    Err(_) => format!("err {}{}", state, tail),
+                };
+                out.op(&format!("sfwd send {} {} {}", i, env_c, env_w), &answer);
+                if let Ok(n) = &res {
+                    if *n != p.len() {
+                        out.oracle_fail("the reported written/dropped counts differ from what was emitted", &format!("{} :: try_send returned Ok({}) for a payload of {} bytes", ctx, n, p.len()));
+                    }
+                }
+                if auto {
+                    read_all(&mut conns, &dsock, &mut dgrams);
+                }
+            }
+        }
+    }
+    // the exporter goes away: every connection ends; the receiver reads each one to its end
+    drop(client);
+    for c in conns.iter_mut() {
+        if let Some(s) = &c.sock {
+            s.set_nonblocking(false).unwrap();
+            s.set_read_timeout(Some(Duration::from_secs(20))).unwrap();
+        }
+        use std::io::Read;
+        let mut chunk = vec![0u8; 1 << 16];
+        while let Some(s) = c.sock.as_mut() {
+            match s.read(&mut chunk) {
+                Ok(0) => {
+                    c.eof = true;
+                    c.sock = None;
+                }
+                Ok(k) => c.data.extend_from_slice(&chunk[..k]),
+                Err(e) if e.kind() == std::io::ErrorKind::Interrupted => {}
+                Err(e) if matches!(e.kind(), std::io::ErrorKind::WouldBlock | std::io::ErrorKind::TimedOut) => {
+                    out.oracle_fail("forwarder connection still open after the client was dropped", &ctx);
+                    c.sock = None;
+                }
+                Err(_) => {
+                    c.eof = true;
+                    c.sock = None;
+                }
+            }
+        }
+    }
+    read_all(&mut conns, &dsock, &mut dgrams);
+    let _ = std::fs::remove_dir_all(&dir);
+    out.count(if stream { "fwd.stream" } else { "fwd.dgram" });
+    out.count_n("fwd.sends", sends.len() as u64);
+    out.count_n("fwd.sends_ok", sends.iter().filter(|s| s.1).count() as u64);
+    out.count_n("fwd.torn_frames", n_torn);
+    out.count_n("fwd.write_timeouts", n_timeouts);
+    out.count_n("fwd.other_send_errors", n_other_err);
+    out.count_n("fwd.connect_failures", n_connfail);
+    out.count_n("fwd.connections", conns.len() as u64);
+    if n_torn > 0 || n_timeouts > 0 || n_other_err > 0 {
+        out.nontrivial();
+    }
+    // ---- oracles on what the receiver got
+    let ok_payloads: Vec<&Vec<u8>> = sends.iter().filter(|s| s.1).map(|s| &pool[s.0]).collect();
+    if stream {
+        let mut received: Vec<Vec<u8>> = vec![];
+        let mut wire = vec![];
+        for (ci, c) in conns.iter().enumerate() {
+            let (frames, rest) = deframe_stream(&c.data);
+            let bodies: Vec<u8> = frames.iter().flat_map(|f| f.iter().copied()).collect();
+            wire.push(format!("{}/{}/{}/{}/{}", c.data.len(), fnv1a(&c.data), frames.len(), fnv1a(&bodies), rest.len()));
+            // every whole frame is a payload that was sent, in send order
+            let mut at = 0usize;
+            for f in &frames {
+                let mut full = (f.len() as u32).to_le_bytes().to_vec();
+                full.extend_from_slice(f);
+                match sends[at..].iter().position(|s| pool[s.0] == full) {
+                    Some(j) => at += j + 1,
+                    None => {
+                        out.oracle_fail(
+                            "length-prefixed stream is mis-framed",
+                            &format!("{} :: connection {} of {}: the receiver reads a frame of {} bytes that is not a payload that was sent (in order): {}…", ctx, ci, conns.len(), f.len(), hex(&f[..f.len().min(48)])),
+                        );
+                        return;
+                    }
+                }
+                if f.len() > max {
+                    out.oracle_fail("payload longer than the configured maximum", &format!("{} len={}", ctx, f.len()));
+                }
+                if f.len() <= 70_000 {
+                    if let Err(e) = parse_datagram(f) {
+                        out.oracle_fail("emitted payload is not a DogStatsD datagram", &format!("{} :: {} :: {}", ctx, e, hex(&f[..f.len().min(200)])));
+                        return;
+                    }
+                }
+                received.push(full);
+            }
+            if !rest.is_empty() && !torn.iter().any(|p| rest.len() < p.len() && p[..rest.len()] == *rest) {
+                out.oracle_fail(
+                    "length-prefixed stream is mis-framed",
+                    &format!("{} :: connection {} ends with {} bytes that are not the beginning of a payload whose send failed: {}…", ctx, ci, rest.len(), hex(&rest[..rest.len().min(48)])),
+                );
+                return;
+            }
+        }
+        // every payload reported as sent arrives exactly once, nothing else arrives whole
+        let mut want: Vec<&[u8]> = ok_payloads.iter().map(|p| &p[..]).collect();
+        let mut got: Vec<&[u8]> = received.iter().map(|p| &p[..]).collect();
+        want.sort();
+        got.sort();
+        let fine = want == got;
+        if !fine {
+            out.oracle_fail(
+                "points emitted + points dropped differs from the number of input points",
+                &format!("{} :: {} payloads were reported as sent, the receiver de-framed {} whole frames (all connections); they are not the same payloads", ctx, want.len(), got.len()),
+            );
+            return;
+        }
+        out.op("sfwd wire", &list(wire));
+    } else {
+        let all: Vec<u8> = dgrams.iter().flat_map(|d| d.iter().copied()).collect();
+        for d in &dgrams {
+            if d.len() > max {
+                out.oracle_fail("payload longer than the configured maximum", &format!("{} len={}", ctx, d.len()));
+            }
+        }
+        let want: Vec<&[u8]> = ok_payloads.iter().map(|p| &p[..]).collect();
+        let got: Vec<&[u8]> = dgrams.iter().map(|p| &p[..]).collect();
+        if want != got {
+            out.oracle_fail(
+                "points emitted + points dropped differs from the number of input points",
+                &format!("{} :: {} datagrams were reported as sent, {} arrived (or other ones / another order)", ctx, want.len(), got.len()),
+            );
+            return;
+        }
+        out.op("sfwd wire", &format!("{}/{}", dgrams.len(), fnv1a(&all)));
+    }
+}
+
+fn run_forwarder_stream(cfg: &Cfg, out: &mut Out) {
+    // corpus: the shapes that tear a frame
+    let mut r0 = Rng::new(0xC09F);
+    let (max_b, pool_b) = fwd_pool(&mut r0, true, true);
+    let big = pool_b.len() - 1;
+    let corpus: Vec<(&str, bool, usize, Vec<Vec<u8>>, Vec<FOp>)> = vec![
+        (
+            "stalled receiver, one payload larger than the socket buffer, receiver resumes, traffic continues",
+            true,
+            max_b,
+            pool_b.clone(),
+            vec![FOp::Send(0), FOp::Send(big), FOp::Read, FOp::Send(0), FOp::Send(1), FOp::Send(2), FOp::Read, FOp::Send(big), FOp::Send(1)],
+        ),
+        (
+            "backlog of unread payloads fills the socket buffer, receiver resumes",
+            true,
+            max_b,
+            pool_b.clone(),
+            {
+                let mut s = vec![FOp::Auto(false)];
+                for _ in 0..40 {
+                    s.push(FOp::Send(2));
+                }
+                s.extend([FOp::Read, FOp::Send(0), FOp::Send(1), FOp::Auto(true), FOp::Send(2), FOp::Send(0)]);
+                s
+            },
+        ),
+        (
+            "endpoint absent at first, then present; receiver closes; endpoint goes away and comes back",
+            true,
+            max_b,
+            pool_b.clone(),
+            vec![FOp::Down, FOp::Send(0), FOp::Send(1), FOp::Up, FOp::Send(0), FOp::Send(1), FOp::CloseLive(true), FOp::Send(0), FOp::Send(1), FOp::Down, FOp::CloseLive(false), FOp::Send(0), FOp::Send(0), FOp::Up, FOp::Send(1), FOp::Read],
+        ),
+    ];
+    let mut idx = 1000usize;
+    for (tag, stream, max, pool, script) in &corpus {
+        out.case(&format!("forwarder corpus: {}", tag));
+        run_fwd_case(out, *stream, *max, pool, script, idx);
+        idx += 1;
+    }
+    {
+        let (max_d, pool_d) = fwd_pool(&mut r0, false, false);
+        out.case("forwarder corpus: datagram socket, stalled receiver, receiver resumes, endpoint goes away and comes back");
+        let mut s = vec![FOp::Auto(false)];
+        for _ in 0..14 {
+            s.push(FOp::Send(0));
+        }
+        s.extend([FOp::Read, FOp::Send(1), FOp::Send(2), FOp::Down, FOp::Send(0), FOp::Send(0), FOp::Up, FOp::Send(1), FOp::Read]);
+        run_fwd_case(out, false, max_d, &pool_d, &s, idx);
+        idx += 1;
+    }
+    let n = if cfg.thorough { 60 } else { 10 };
+    let root = Rng::new(cfg.seed ^ 0xC09F);
+    for i in 0..n {
+        let mut r = root.fork(i as u64);
+        let stream = !r.chance(1, 4);
+        let big = stream && r.chance(1, 5);
+        let (max, pool) = fwd_pool(&mut r, stream, big);
+        let script = fwd_script(&mut r, &pool, cfg.thorough);
+        out.case(&format!("forwarder {} seed={} i={}", if stream { "unix" } else { "unixgram" }, cfg.seed, i));
+        run_fwd_case(out, stream, max, &pool, &script, idx);
+        idx += 1;
+    }
 }
